@@ -215,6 +215,15 @@ def _b_const_zero(d, c):
     return odl.ConstantOperator(sp.zero())
 
 
+@builder('scaling_func')
+def _b_scaling_func(d, c):
+    """ScalingFunctional / IdentityFunctional on the field of a space."""
+    fld = _sp(d, c).field
+    if d.get('s') is None:
+        return odl.solvers.IdentityFunctional(fld)
+    return odl.solvers.ScalingFunctional(fld, d['s'])
+
+
 @builder('lincomb')
 def _b_lincomb(d, c):
     return odl.LinCombOperator(_sp(d, c), d['a'], d['b'])
@@ -624,6 +633,36 @@ class AdjointUnavailable(Exception):
     """An operand of a tree is ``B.adjoint`` and B offers no adjoint."""
 
 
+@builder('pwprod_deriv')
+def _b_pwprod_deriv(d, c, a, b):
+    """Derivative of the pointwise product of two operators (Leibniz)."""
+    from odl.operator.operator import OperatorPointwiseProduct
+    op = OperatorPointwiseProduct(a.op, b.op)
+    return op.derivative(c.vec(op.domain, d['x'], nonzero=True))
+
+
+@builder('chain_deriv')
+def _b_chain_deriv(d, c, a):
+    """Chain rule: derivative of (non-linear outer) o (linear A), also with
+    an added constant (OperatorVectorSum)."""
+    A = a.op
+    Y = A.range
+    outer = d['outer']
+    if outer == 'cmod':
+        f = odl.ComplexModulus(Y)
+    elif outer == 'cmodsq':
+        f = odl.ComplexModulusSquared(Y)
+    elif outer == 'power':
+        f = odl.PowerOperator(Y, 2)
+    else:
+        f = getattr(odl.ufunc_ops, outer)(Y)
+    inner = A
+    if d.get('shift') is not None:
+        inner = A + c.vec(Y, d['shift'])
+    x = c.vec(A.domain, d['x'], positive=True)
+    return (f * inner).derivative(x)
+
+
 @builder('adjoint')
 def _b_adjoint(d, c, a):
     try:
@@ -823,7 +862,7 @@ def fam_default(draw):
     entries = ['identity', 'scaling', 'multiply_vec', 'multiply_scal',
                'multiply_field', 'inner', 'zero', 'zero2', 'const_zero',
                'norm_deriv', 'dist_deriv', 'func_deriv', 'grad_deriv',
-               'lincomb', 'power1']
+               'lincomb', 'power1', 'scaling_func']
     if skind != 'pspace':
         entries += ['power_deriv', 'multiply_scal2']
         if field == 'real':
@@ -833,6 +872,8 @@ def fam_default(draw):
         op = {'e': e, 'sp': 'X', 's': draw(scalars(field))}
     elif e in ('multiply_vec', 'multiply_field', 'inner'):
         op = {'e': e, 'sp': 'X', 'v': draw(seeds())}
+    elif e == 'scaling_func':
+        op = {'e': e, 'sp': 'X', 's': draw(st.none() | scalars(field))}
     elif e == 'multiply_scal':
         op = {'e': e, 'dom': 'X', 'ran': 'X', 's': draw(scalars(field))}
     elif e == 'multiply_scal2':
@@ -1004,6 +1045,10 @@ def _sampling_pts(draw, shape):
 def fam_sampling(draw):
     field = draw(fields())
     sd = draw(leaf_sd(field, max_size=8, wkinds=W_FEW, p_bdry=2))
+    if sd['kind'] == 'discr' and draw(st.integers(0, 7)) == 0:
+        # uniform_discr(..., weighting=c): not the cell volume
+        sd['weighting'] = {'type': 'const',
+                           'value': draw(vs.float_values(positive=True))}
     e = draw(st.sampled_from(['sampling', 'sampling', 'wsumsampling',
                               'flatten', 'flatten', 'flatten_inv']))
     op = {'e': e, 'sp': 'X'}
@@ -1150,7 +1195,18 @@ def fam_resize(draw):
                 ran_shp[i] = n + grow
     if draw(st.integers(0, 3)) == 0:
         op['nodes'] = draw(st.sampled_from([True, False]))
-    return _case('resize', {'X': sd}, op)
+    spaces = {'X': sd}
+    if op['offset'] is not None and not has_bdry(sd) and \
+            draw(st.integers(0, 2)) == 0:
+        # the same operator with an explicitly given range
+        mins, maxs = [], []
+        for i, n in enumerate(shape):
+            cell = (sd['max'][i] - sd['min'][i]) / n
+            mins.append(sd['min'][i] - offset[i] * cell)
+            maxs.append(mins[-1] + ran_shp[i] * cell)
+        spaces['Y'] = dict(sd, min=mins, max=maxs, shape=list(ran_shp))
+        op = {'e': 'resize', 'sp': 'X', 'ran': 'Y', 'pad_mode': pad}
+    return _case('resize', spaces, op)
 
 
 @st.composite
@@ -1198,9 +1254,16 @@ def fam_fourier(draw):
             nax = nd if axes is None else len(axes)
             op['shift'] = draw(st.booleans()) if draw(st.booleans()) else \
                 [draw(st.booleans()) for _ in range(nax)]
+    spaces = {'X': sd}
     if e == 'dft':
         op['ran'] = None
-    return _case('fourier', {'X': sd}, op)
+        if field == 'complex' and draw(st.integers(0, 3)) == 0:
+            # explicit range: any complex discretization of the same shape
+            spaces['Y'] = draw(discr_sd('complex', shape=sd['shape'],
+                                        bdry=False))
+            spaces['Y']['dtype'] = sd['dtype']
+            op['ran'] = 'Y'
+    return _case('fourier', spaces, op)
 
 
 ORTH_WAVELETS = ['haar', 'db2', 'db3', 'sym2', 'sym3', 'coif1']
@@ -1625,8 +1688,11 @@ def fam_blocks(draw):
     U = Universe(field, sdx, sdy)
     nd = draw(st.integers(1, 3))
     nr = draw(st.integers(1, 3))
-    pd = [draw(st.sampled_from(['X', 'Y'])) for _ in range(nd)]
-    pr = [draw(st.sampled_from(['X', 'Y'])) for _ in range(nr)]
+    if draw(st.booleans()):
+        pd, pr = ['X'] * nd, ['X'] * nr     # all blocks X -> X
+    else:
+        pd = [draw(st.sampled_from(['X', 'Y'])) for _ in range(nd)]
+        pr = [draw(st.sampled_from(['X', 'Y'])) for _ in range(nr)]
     e = draw(st.sampled_from(['pspaceop', 'pspaceop', 'broadcast',
                               'reduction', 'diagonal', 'repeat']))
     if e == 'pspaceop':
@@ -1665,19 +1731,45 @@ def fam_blocks(draw):
     return _case('blocks', U.spaces, op)
 
 
+@st.composite
+def fam_derivs(draw):
+    """Linear operators returned by ``derivative`` of non-linear
+    combinations: chain rule, Leibniz rule, operator + constant."""
+    field = draw(fields())
+    sdx = draw(leaf_sd(field, max_size=6, wkinds=('none', 'const'),
+                       bdry=False))
+    sdy = draw(tensor_sd(field, max_size=3, max_ndim=1,
+                         wkinds=('none', 'const')))
+    sdy['dtype'] = sdx['dtype']
+    U = Universe(field, sdx, sdy)
+    kind = draw(st.sampled_from(['chain', 'chain', 'pwprod']))
+    if kind == 'pwprod':
+        op = {'e': 'pwprod_deriv', 'x': draw(seeds()),
+              'args': [draw(_leaf(U, 'X', 'X')), draw(_leaf(U, 'X', 'X'))]}
+    else:
+        outers = ['cmod', 'cmodsq', 'power'] if field == 'complex' else \
+            ['sin', 'exp', 'square', 'cosh', 'power']   # cmod* on real: K3
+        op = {'e': 'chain_deriv', 'outer': draw(st.sampled_from(outers)),
+              'x': draw(seeds()),
+              'shift': draw(st.none() | seeds()),
+              'args': [draw(_leaf(U, 'X', 'X'))]}
+    return _case('derivs', U.spaces, op)
+
+
 FAMILIES = {
     'default_ops': fam_default, 'complex_ops': fam_complex,
     'matrix': fam_matrix, 'sampling': fam_sampling,
     'pointwise': fam_pointwise, 'projection': fam_projection,
     'diff_ops': fam_diff, 'resize': fam_resize, 'fourier': fam_fourier,
     'wavelet': fam_wavelet, 'blocks': fam_blocks, 'tree': fam_tree,
+    'derivs': fam_derivs,
 }
 
 # relative frequencies of the families in a run
 FAMILY_WEIGHTS = [('default_ops', 3), ('complex_ops', 2), ('matrix', 3),
                   ('sampling', 2), ('pointwise', 2), ('projection', 2),
                   ('diff_ops', 3), ('resize', 2), ('fourier', 2),
-                  ('wavelet', 1), ('blocks', 2), ('tree', 8)]
+                  ('wavelet', 1), ('blocks', 2), ('tree', 8), ('derivs', 1)]
 
 
 def cases():
